@@ -153,6 +153,34 @@ fn cube_triples(n: usize, lits: &[(usize, bool)]) -> Vec<(usize, usize, usize)> 
     nodes
 }
 
+/// a random level-ordered diagram that is valid but not reduced: `k` decision nodes on random levels of `n`
+/// variables (deepest first, so children precede parents and the root is last), children drawn among the
+/// deeper nodes (`near`: among the six nearest) or the terminals (zero with probability ~ pz/8)
+fn random_dag(rng: &mut Rng64, n: usize, k: usize, pz: u64, near: bool) -> Vec<(usize, usize, usize)> {
+    let mut levels: Vec<usize> = (0..k).map(|_| rng.below(n as u64) as usize).collect();
+    levels.sort(); levels.reverse();
+    let mut nodes = vec![(n, 0, 0), (n, 1, 1)];
+    for i in 0..k {
+        let lv = levels[i];
+        let mut c = 0; while c < i && levels[c] > lv { c += 1; }
+        let mut pick = |rng: &mut Rng64| -> usize {
+            if c == 0 || rng.below(8) < pz { if rng.below(8) < pz { 0 } else { 1 } }
+            else if near { let w = c.min(6); 2 + c - 1 - rng.below(w as u64) as usize }
+            else { 2 + rng.below(c as u64) as usize }
+        };
+        let l = pick(rng); let h = pick(rng);
+        nodes.push((lv, l, h));
+    }
+    nodes
+}
+
+/// `cnt` for a diagram the generator claims to be valid: `Bdd::from_nodes` (the validating constructor) must accept it
+fn cnt_valid(t: &[(usize, usize, usize)], out: &mut Out) {
+    let data: Vec<BddNode> = t.iter().map(|(v, l, h)| BddNode::mk_node(var(*v), BddPointer::from_index(*l), BddPointer::from_index(*h))).collect();
+    assert!(Bdd::from_nodes(&data).is_ok(), "generator produced an invalid diagram: {}", fmt_triples(t));
+    cnt(t, out)
+}
+
 fn cnt(t: &[(usize, usize, usize)], out: &mut Out) { run("C09.cnt", &[fmt_triples(t)], out) }
 
 /// the same diagram with its inner decision nodes renumbered by a random permutation (the root stays
@@ -301,6 +329,75 @@ pub fn gen(tier: Tier, rng: &mut Rng64, out: &mut Out) {
             };
             run("C09.law", &[n.to_string(), fmt_triples(&ta), fmt_triples(&tb)], out);
         }
+    }
+    // --- the floating-point clause (cardinality(): binary64 model compared bit for bit) --------------------
+    // non-canonical roots accepted by from_nodes/validate, root variable on both sides of 1024 (2.0.powi(v)
+    // overflows from v = 1024 on): unsatisfiable (the F11 defect: 0.0 * inf), tautology-like, unsatisfiable
+    // through redundant inner nodes, count-1 single paths, the same below a redundant root test
+    {
+        let ns: &[usize] = if thorough { &[1000, 1023, 1024, 1025, 1026, 1077, 1100, 2000, 2098, 2099, 5000] } else { &[1023, 1024, 1025, 1077, 2000, 5000] };
+        for &n in ns {
+            let vs: Vec<usize> = if thorough { vec![0, 1, 52, 53, 1000 % n, 1022 % n, 1023 % n, 1024 % n, 1025 % n, 1076 % n, n / 2, n - 2, n - 1] }
+                                 else { vec![0, 53, 1023 % n, 1024 % n, 1025 % n, n - 1] };
+            for &v in &vs {
+                cnt_valid(&[(n, 0, 0), (n, 1, 1), (v, 0, 0)], out);
+                cnt_valid(&[(n, 0, 0), (n, 1, 1), (v, 1, 1)], out);
+                if v + 1 < n {
+                    cnt_valid(&[(n, 0, 0), (n, 1, 1), (n - 1, 0, 0), (v, 2, 2)], out);
+                    cnt_valid(&[(n, 0, 0), (n, 1, 1), (n - 1, 0, 0), (v, 0, 2)], out);
+                    cnt_valid(&[(n, 0, 0), (n, 1, 1), (n - 1, 0, 0), (n - 1, 0, 1), (v, 2, 2)], out);
+                }
+                // single path from level v on (count 1 before the root offset 2^v)
+                let bits: Vec<bool> = (0..n).map(|_| rng.bool()).collect();
+                let mut nodes = vec![(n, 0, 0), (n, 1, 1)];
+                for i in (v..n).rev() { let r = nodes.len() - 1; nodes.push(if bits[i] { (i, 0, r) } else { (i, r, 0) }); }
+                if thorough || nodes.len() < 1200 { cnt_valid(&nodes, out); }
+                if v > 0 && (thorough || nodes.len() < 1200) { let r = nodes.len() - 1; nodes.push((v - 1, r, r)); cnt_valid(&nodes, out); }
+            }
+        }
+    }
+    // ties and near-ties of the rounding: x0 | (x1 & … & x_{n-5} & g(last four variables)): count 2^(n-1) + #g,
+    // n - 1 = 53 … 59, so the low bits of the count fall on, just below and just above half an ulp
+    for n in 54..=60usize {
+        for t in 0..65536u64 {
+            let keep = if thorough { t % 61 == (n as u64) % 61 || t <= 300 } else { t % 2048 == (n as u64 * 37) % 2048 || (t < 64 && t % 2 == (n as u64) % 2) };
+            if !keep { continue; }
+            let g = canon_triples(4, &tt_from_index(4, t));
+            if g.len() < 2 { continue; }
+            let mut nodes: Vec<(usize, usize, usize)> = g.iter().map(|(v, l, h)| (if *v == 4 { n } else { n - 4 + *v }, *l, *h)).collect();
+            for v in (1..n - 4).rev() { let r = nodes.len() - 1; nodes.push((v, 0, r)); }
+            let r = nodes.len() - 1; nodes.push((0, r, 1));
+            cnt(&nodes, out);
+        }
+    }
+    // the overflow threshold 2^1024 - 2^970: x_a | … | x_{a+k-1} over n variables has 2^n - 2^(n-k) models
+    // (largest finite double at n = 1024, k = 53; a tie that rounds to +inf at k = 54)
+    for n in [1023usize, 1024, 1025, 1026, 1030, 1077] {
+        for k in 1..=60usize {
+            if !thorough && !(k <= 2 || (50..=56).contains(&k)) { continue; }
+            for a in [0usize, 1, 2, 7] {
+                if !thorough && a != 0 && a != 7 { continue; }
+                let mut nodes = vec![(n, 0, 0), (n, 1, 1)];
+                for v in (a..a + k).rev() { let r = nodes.len() - 1; nodes.push((v, if r == 1 { 0 } else { r }, 1)); }
+                cnt(&nodes, out);
+            }
+        }
+    }
+    // random valid, NOT reduced diagrams (many nodes per path, shared sub-diagrams, zero branches): many rounding
+    // steps, counts with more than 53 significant bits; up to 5 000 variables
+    for i in 0..(if thorough { 6000 } else { 320 }) {
+        let n = match i % 6 {
+            0 => 54 + rng.below(60) as usize,
+            1 => 100 + rng.below(400) as usize,
+            2 => 950 + rng.below(200) as usize,
+            3 => 1025 + rng.below(1200) as usize,
+            4 => 60 + rng.below(40) as usize,
+            _ => 2100 + rng.below(2900) as usize,
+        };
+        let k = 2 + rng.below(if i % 10 == 0 { 400 } else { 60 }) as usize;
+        let pz = rng.below(5);
+        let near = rng.bool();
+        cnt_valid(&random_dag(rng, n, k, pz, near), out);
     }
     // --- counting functions on RESULTS of library operations (a result with dead or redundant nodes would make
     //     support_set / size_per_variable report variables the function does not depend on)
